@@ -11,7 +11,7 @@ CLAIMED = {
  "C11": dict(
    level="exploration", design="§3 C11, §2.3",
    technique="bounded-exhaustive enumeration of table shapes x seek targets, and exhaustive single-byte damage enumeration, on the real SSTable writer/reader",
-   text="Every table shape of the alphabet (entry counts around the restart interval 16, all tombstone masks up to 4/6 entries, empty values, prefix/binary/long keys, 2-5 block tables) is written with the real Writer and read back with the real Reader: forward iteration must equal the written list (key, value, deletion flag, sequence number), Seek to every key/gap/end followed by iteration to the end, SeekToLast, Get of every key and every non-key. Every single byte of the small files (and head/stride/tail positions of the multi-block file) is damaged with three value classes; open+iterate+get must fail with an error or yield only written entries - a panic, fatal error, fabricated or disordered entry is a violation.",
+   text="Every table shape of the alphabet (entry counts around the restart interval 16, all tombstone masks up to 4/6 entries, empty values, prefix/binary/long keys, every position of the first difference between neighbouring keys for key lengths 8..31 with equal and differing tails, 2-5 block tables) is written with the real Writer and read back with the real Reader: forward iteration must equal the written list (key, value, deletion flag, sequence number), Seek to every key/gap/end followed by iteration to the end, SeekToLast, Get of every key and every non-key. Every single byte of the small files (and head/stride/tail positions of the multi-block file) is damaged with three value classes; open+iterate+get must fail with an error or yield only written entries - a panic, fatal error, fabricated or disordered entry is a violation.",
    note="Trusted: Go runtime, tmpfs. Not covered: multi-byte damage, keys > 302 B, values > 20 KiB. A worker killed by a fatal error is reported with the case it was evaluating."),
  "C09": dict(
    level="model_checking", design="§3 C09, §2.4",
@@ -66,7 +66,7 @@ CLAIMED = {
  "C17": dict(
    level="model_checking", design="§3 C17, §2.2",
    technique="bounded-exhaustive call sequences on one transaction plus stateless interleaving exploration of the transaction registry with timeouts, clock jumps and tickers as explorer-chosen environment events; deadlock detection by the scheduler",
-   text="(A) every sequence of <=4 (5) calls {get, put, delete, scan, commit, rollback} on a read-write and a read-only transaction: first finish takes effect once, later calls return the closed error and change nothing, a probe begin is granted afterwards. (B) 8 registry scenarios (begin waiting for the lock while the 10 s timeout fires, abandonment + idle cleanup direct and via ticker, connection cleanup, graceful shutdown, commit racing rollback, stale cleanup racing commit) explored over all interleavings and all ready select cases up to 2 (3) deviations; after every terminal state a probe BeginTransaction(false) must be granted (otherwise the deadlock witness names the blocked call sites), a write is visible iff its commit succeeded, commit and rollback never both succeed. The scenarios also run free (no scheduler) in a -race build, 8 / 100 iterations each: a race report outside Close, a panic or a hang is a violation.",
+   text="(A) every sequence of <=4 (5) calls {get, put, delete, scan, commit, rollback} on a read-write and a read-only transaction: first finish takes effect once, later calls return the closed error and change nothing, a probe begin is granted afterwards. (A2) every sequence of <=3 (4) requests on one remote handle through the network service and its registry, including the requests a server rejects (empty / 4097-byte key, oversized value), followed by the client rollback and the connection cleanup: a probe writer is granted, a finished handle is not finished twice, data shows exactly a successful commit. (B) 8 registry scenarios (begin waiting for the lock while the 10 s timeout fires, abandonment + idle cleanup direct and via ticker, connection cleanup, graceful shutdown, commit racing rollback, stale cleanup racing commit) explored over all interleavings and all ready select cases up to 2 (3) deviations; after every terminal state a probe BeginTransaction(false) must be granted (otherwise the deadlock witness names the blocked call sites), a write is visible iff its commit succeeded, commit and rollback never both succeed. The scenarios also run free (no scheduler) in a -race build, 8 / 100 iterations each: a race report outside Close, a panic or a hang is a violation.",
    note="Virtual time; a client never requests a second transaction while holding one."),
  "C07": dict(
    level="model_checking", design="§3 C07, §2.2",
@@ -86,7 +86,7 @@ CLAIMED = {
  "C16": dict(
    level="model_checking", design="§3 C16",
    technique="computed mutator set (differential run on a read-write twin) over entry points enumerated by reflection, exhaustive interleaving exploration of the replication applier against client mutators, and role reporting of the real replication manager in its three modes",
-   text="Every entry point of *EngineFacade, Transaction and *KevoServiceServer (27 bodies; a new method without body or recorded exclusion is a HARNESS-ERROR) is run on a read-write twin and on the same state in read-only mode: calls that change scan or log on the twin (12 mutators) must return a read-only error and change nothing on the replica, the *Internal bypasses must still take effect, reads must work. The applier (2 replicated entries) is explored against client Put/Delete/BatchWrite over all interleavings up to 2 (3) deviations. replication.Manager is started in standalone/primary/replica mode: GetNodeInfo must report role, primary address and read_only truthfully and a started replica must reject client writes. The scenarios also run free (no scheduler) in a -race build, 8 / 100 iterations each: a race report outside Close, a panic or a hang is a violation.",
+   text="Every entry point of *EngineFacade, Transaction and *KevoServiceServer (33 bodies incl. raw batches and BatchWrite requests of one, two and three entries; a new method without body or recorded exclusion is a HARNESS-ERROR) is run on a read-write twin and on the same state in read-only mode: calls that change scan or log on the twin (12 mutators) must return a read-only error and change nothing on the replica, the *Internal bypasses must still take effect, reads must work. The applier (2 replicated entries) is explored against client Put/Delete/BatchWrite over all interleavings up to 2 (3) deviations. replication.Manager is started in standalone/primary/replica mode: GetNodeInfo must report role, primary address and read_only truthfully and a started replica must reject client writes. The scenarios also run free (no scheduler) in a -race build, 8 / 100 iterations each: a race report outside Close, a panic or a hang is a violation.",
    note="The window inside Manager.Start before the read-only switch is not flagged. The manager unit uses real loopback listeners."),
  "C13": dict(
    level="model_checking", design="§3 C13, §2.5",
